@@ -175,4 +175,15 @@ impl Prop for C17 {
         }
         Ok(())
     }
+    fn replay_other(&self, _env: &Env, case: &serde_json::Value, st: &mut Stats) -> Result<(), Fail> {
+        if case.get("kind").and_then(|k| k.as_str()) == Some("project") {
+            let p: crate::model::ProjectM =
+                serde_json::from_value(case["project"].clone()).map_err(|e| Fail::harness(format!("bad project: {e}")))?;
+            let mut s = Src::new(&[]);
+            let pcase = ProjCase::from_project(p, &mut s, &projcase::calm_layout())?;
+            st.eval();
+            return check_project(&pcase, st).map(|_| ()).map_err(|e| Fail::new(e, case.clone()));
+        }
+        Err(Fail::harness("unknown case kind"))
+    }
 }
